@@ -196,6 +196,18 @@ func TestHarness(t *testing.T) {
 			if has("linkend") {
 				emit(guard("linkend", "json-raw", seed, func() SysRecord { return FamLinkEnd(job.Seed*31 + int64(i)) }))
 			}
+			if has("relay") {
+				switch cfg {
+				case 0:
+					emit(guard("relay", "jsonRawCodec", seed, func() SysRecord { return FamRelay(jsonRawCodec(), seed) }))
+				case 1:
+					emit(guard("relay", "jsonBytesCodec", seed, func() SysRecord { return FamRelay(jsonBytesCodec(), seed) }))
+				case 2:
+					emit(guard("relay", "cborRawCodec", seed, func() SysRecord { return FamRelay(cborRawCodec(), seed) }))
+				default:
+					emit(guard("relay", "cborBytesCodec", seed, func() SysRecord { return FamRelay(cborBytesCodec(), seed) }))
+				}
+			}
 			if has("enumrace") {
 				emit(guard("enumrace", "json-raw", seed, func() SysRecord { return FamEnumRace(seed) }))
 			}
